@@ -81,6 +81,9 @@ func (x *exec) builtin(st *State, fr *Frame, ins ssa.Instruction, b *ssa.Builtin
 		}
 		return []Value{scalar(args[0].T, acc)}
 	case "close":
+		// closing a channel: no effect on verified state; recorded as a quiet event (calls(chan.close), arg(chan.close, k, ch))
+		x.recordEventVals(st, ins, "chan:close", "chan", []Value{args[0]}, []string{"ch"})
+		st.trace[len(st.trace)-1].Quiet = true
 		return nil
 	}
 	unsupported("builtin %s", b.Name())
